@@ -139,6 +139,22 @@ func (w *XLWorld) start() {
 			return ra.Username, turn.GenerateAuthKey(ra.Username, ra.Realm, pass), true
 		}}
 	ph := func(client net.Addr, peer net.IP) bool { return true }
+	var shared *xlGen
+	if cfg.Extra["sharegen"] == 1 {
+		// the operator gives every listener the same generator instance and no permission
+		// handler: still one allocation table per listener
+		ph = nil
+		shared = &xlGen{w, w.Ls[0].RelayIP}
+		for i := range w.Ls {
+			w.Ls[i].RelayIP = w.Ls[0].RelayIP
+		}
+	}
+	gen := func(l xlListener) turn.RelayAddressGenerator {
+		if shared != nil {
+			return shared
+		}
+		return &xlGen{w, l.RelayIP}
+	}
 	// PacketConnConfigs first, ListenerConfigs second - the order NewServer keeps them in
 	for _, l := range w.Ls {
 		if l.Kind != "udp" {
@@ -148,7 +164,7 @@ func (w *XLWorld) start() {
 		if err != nil {
 			Fatalf("xl listen udp: %v", err)
 		}
-		sc.PacketConnConfigs = append(sc.PacketConnConfigs, turn.PacketConnConfig{PacketConn: s, RelayAddressGenerator: &xlGen{w, l.RelayIP}, PermissionHandler: ph})
+		sc.PacketConnConfigs = append(sc.PacketConnConfigs, turn.PacketConnConfig{PacketConn: s, RelayAddressGenerator: gen(l), PermissionHandler: ph})
 	}
 	for _, l := range w.Ls {
 		if l.Kind != "tcp" {
@@ -158,7 +174,7 @@ func (w *XLWorld) start() {
 		if err != nil {
 			Fatalf("xl listen tcp: %v", err)
 		}
-		sc.ListenerConfigs = append(sc.ListenerConfigs, turn.ListenerConfig{Listener: ln, RelayAddressGenerator: &xlGen{w, l.RelayIP}, PermissionHandler: ph})
+		sc.ListenerConfigs = append(sc.ListenerConfigs, turn.ListenerConfig{Listener: ln, RelayAddressGenerator: gen(l), PermissionHandler: ph})
 	}
 	go func() {
 		srv, err := turn.NewServer(sc)
